@@ -128,9 +128,16 @@ func c09WheelEval(out string, cs []c09WheelCase, res *Result) {
 	var sb strings.Builder
 	sb.WriteString("From TarsV Require Import Conc.TimeWheel.\nFrom Coq Require Import List NArith.\nImport ListNotations.\nOpen Scope N_scope.\n")
 	sb.WriteString("Definition cases : list wheel_case := [\n" + strings.Join(terms, ";\n") + "\n].\n")
+	// rtimer.After as a whole: a panicking After must not leave the table of wheels locked
+	var lterms []string
+	for _, ns := range []int{0, 7, 19, 50000000, 400000000} {
+		panicked, blocked := c09AfterLock(time.Duration(ns))
+		lterms = append(lterms, fmt.Sprintf("(%d, %s, %s)", ns, coqBool(panicked), coqBool(blocked)))
+	}
+	sb.WriteString("Definition lcases : list lock_case := [\n" + strings.Join(lterms, ";\n") + "\n].\n")
 	// indices continue after the scenario cases so that a mismatch is attributed to the right replay entry
-	fmt.Fprintf(&sb, "Definition M := Eval vm_compute in (wheel_mismatches %d cases).\nPrint M.\n", len(res.Cases))
-	sb.WriteString("Definition CNT := Eval vm_compute in (N.of_nat (length cases)).\nPrint CNT.\n")
+	fmt.Fprintf(&sb, "Definition M := Eval vm_compute in (wheel_mismatches %d cases ++ lock_failing %d lcases).\nPrint M.\n", len(res.Cases), len(res.Cases)+len(cs))
+	sb.WriteString("Definition CNT := Eval vm_compute in (N.of_nat (length cases + length lcases)).\nPrint CNT.\n")
 	name := filepath.Join(out, "cases_C09_wheel.v")
 	if err := os.WriteFile(name, []byte(sb.String()), 0o644); err != nil {
 		fatal("write: %v", err)
@@ -138,6 +145,9 @@ func c09WheelEval(out string, cs []c09WheelCase, res *Result) {
 	res.CaseFiles = append(res.CaseFiles, name)
 	for _, c := range cs {
 		res.Cases = append(res.Cases, mustJSONc09(map[string]interface{}{"time_wheel": c}))
+	}
+	for _, t := range lterms {
+		res.Cases = append(res.Cases, mustJSONc09(map[string]interface{}{"rtimer_after_then_after": t}))
 	}
 	res.Stats["time_wheel_cases"] = len(cs)
 }
@@ -148,4 +158,27 @@ func mustJSONc09(v interface{}) []byte {
 		return []byte("null")
 	}
 	return b
+}
+
+// c09AfterLock calls rtimer.After(d) (recovering its panic) and then, in another goroutine, rtimer.After(50 ms):
+// whether the first panicked and whether the second failed to return within two seconds.
+func c09AfterLock(d time.Duration) (panicked, blocked bool) {
+	first := make(chan bool, 1)
+	go func() {
+		defer func() { first <- recover() != nil }()
+		rtimer.After(d)
+	}()
+	select {
+	case panicked = <-first:
+	case <-time.After(2 * time.Second):
+		return false, true // the table was already locked
+	}
+	done := make(chan struct{})
+	go func() { rtimer.After(50 * time.Millisecond); close(done) }()
+	select {
+	case <-done:
+	case <-time.After(2 * time.Second):
+		blocked = true
+	}
+	return
 }
